@@ -17,7 +17,8 @@ RULE = ("case = (library molecule, distortion seed, method, force mode, ground/e
         "rotates by >= 1 degree or is a singular-set member; distinct by SHA-1 of the case")
 ASSUMPTIONS = ["float64 CPU", "scf_eps 1e-10 so that SCF noise is below the 1e-7 eV / 5e-6 eV/A bounds",
                "excited-state comparisons only for roots separated by >= 0.05 eV from neighbours"]
-REQUIRED_MONITORS = ["transforms_compared", "singular_transforms_compared"]
+REQUIRED_MONITORS = ["transforms_compared", "singular_transforms_compared", "state_dipoles_compared",
+                     "state_forces_compared"]
 CASE_TIMEOUT = 900.0
 
 TOL_E = 1e-7
@@ -35,7 +36,7 @@ def gen_cases(tier, seed):
     if tier == "quick":
         plan = [("AM1", "autodiff", 5), ("PM3", "analytical", 5), ("MNDO", "numerical", 3), ("PM6_SP", "analytical", 4),
                 ("PM6", "autodiff", 2), ("PM6", "autodiff-d", 2), ("AM1", "excited", 2), ("AM1", "uhf", 3), ("PM3", "uhf-analytical", 2),
-                ("AM1", "cutoff", 2), ("PM3", "cutoff-analytical", 1)]
+                ("AM1", "cutoff", 2), ("PM3", "cutoff-analytical", 1), ("AM1", "excited_all", 2)]
         ncone = [0.0, 1e-4, 1e-8]
         nhaar = 2
     else:
@@ -45,7 +46,8 @@ def gen_cases(tier, seed):
                 ("PM6_SP", "autodiff", 30), ("PM6_SP", "analytical", 30),
                 ("PM6", "autodiff", 20), ("PM6", "autodiff-d", 20), ("AM1", "excited", 20), ("PM3", "excited_rpa", 8),
                 ("AM1", "uhf", 25), ("MNDO", "uhf", 15), ("PM3", "uhf-analytical", 15), ("PM6_SP", "uhf", 10),
-                ("AM1", "cutoff", 15), ("PM3", "cutoff-analytical", 10), ("MNDO", "cutoff", 8)]
+                ("AM1", "cutoff", 15), ("PM3", "cutoff-analytical", 10), ("MNDO", "cutoff", 8),
+                ("AM1", "excited_all", 8), ("PM3", "excited_all", 4)]
         ncone = [0.0, 1e-2, 1e-3, 3e-4, 1e-4, 1e-6, 1e-8, 1e-10]
         nhaar = 6
     pool_all = gen.CLOSED_NEUTRAL + gen.IONS
@@ -111,6 +113,10 @@ def _settings(method, mode, cutoff=None):
                             excited={"n_states": 3, "tolerance": 1e-8, "method": "cis",
                                      "compute_transition_properties": True}, active_state=1,
                             extra={"nonadiabatic": {"compute_nac": True}})
+    if mode == "excited_all":  # forces and relaxed / unrelaxed dipoles of EVERY state (do_all_forces)
+        return run.settings(method, eps=1e-10, converger=(2,), grad="analytical",
+                            excited={"n_states": 3, "tolerance": 1e-8, "method": "cis"}, active_state=1,
+                            extra={"do_all_forces": True})
     if mode == "excited_rpa":
         return run.settings(method, eps=1e-10, converger=(2,), grad="analytical",
                             excited={"n_states": 3, "tolerance": 1e-8, "method": "rpa"}, active_state=1)
@@ -262,7 +268,8 @@ def run_case(case):
         bad = []
         # a non-finite output with a clean convergence flag is never one of the listed singular-set mechanisms
         # (those give finite, wrong numbers): report it unclassified
-        nonfin = [k for k in ("Etot", "Eelec", "Enuc", "Hf", "force", "q", "e_mo", "dipole")
+        nonfin = [k for k in ("Etot", "Eelec", "Enuc", "Hf", "force", "q", "e_mo", "dipole", "all_forces",
+                              "state_dip_relaxed", "state_dip_unrelaxed")
                   if out.get(k) is not None and not np.all(np.isfinite(np.asarray(out[k], float)))]
         if nonfin:
             mon["non_finite_outputs"] = mon.get("non_finite_outputs", 0) + 1
@@ -328,6 +335,22 @@ def run_case(case):
                         dd = min(np.abs(a - b).max(), np.abs(a + b).max()) / scale
                         if upd("d_nac", dd, 2e-5):
                             bad.append(("nac-covariance-%s" % key, dd))
+        if out.get("all_forces") is not None and ref.get("all_forces") is not None and exc_ok is not None:
+            # do_all_forces: force of every state (index 0 = ground state) and the state dipoles
+            for k in range(out["all_forces"].shape[1]):
+                if k == 0 or exc_ok[k - 1]:
+                    mon["state_forces_compared"] = mon.get("state_forces_compared", 0) + 1
+                    dd = np.abs(out["all_forces"][0][k] - ref["all_forces"][0][k] @ R.T).max()
+                    if upd("d_all_forces", dd, TOL_F):
+                        bad.append(("all-forces-covariance-state%d" % k, dd))
+            for key in ("state_dip_relaxed", "state_dip_unrelaxed"):
+                if out.get(key) is not None and ref.get(key) is not None and q == 0:
+                    for k in range(out[key].shape[1]):
+                        if exc_ok[k]:
+                            mon["state_dipoles_compared"] = mon.get("state_dipoles_compared", 0) + 1
+                            dd = np.abs(out[key][0][k] - ref[key][0][k] @ R.T).max()
+                            if upd("d_" + key, dd, TOL_MU):
+                                bad.append((key.replace("_", "-") + "-covariance-%d" % (k + 1), dd))
         bad += net(out, Xt, "t", t)
         commit(mech)
         if mech:
